@@ -88,6 +88,8 @@ func (c *cssCase) assembleCut(cutAt int) string {
 		atoms[i] = a + "/" + f
 	case "newline":
 		atoms[i] = a + "\n" + f
+	case "mid":
+		atoms[i] = a + " " + f + " " + a
 	}
 	return strings.Join(atoms, " ")
 }
